@@ -312,6 +312,41 @@ minus `za/φ`, plus `zb/(1−φ)`) -/
 def rr (zs ks : List Rat) (phi : Rat) : Rat :=
   sumL (List.zipWith (fun z k => z * (k - 1) / (1 + phi * (k - 1))) zs ks)
 
+/-- `phase_fraction_objective_function(phi, -zs*(K-1), K-1, za, zb)`: the negative Rachford–Rice sum, minus the
+forced-top term `za/φ`, plus the forced-bottom term `zb/(1−φ)` -/
+def rrObjective (zs ks : List Rat) (za zb phi : Rat) : Rat :=
+  sumL (List.zipWith (fun z k => -(z * (k - 1)) / (1 + phi * (k - 1))) zs ks)
+    - (if za > 0 then za / phi else 0) + (if zb > 0 then zb / (1 - phi) else 0)
+
+/-- the four sign tests on the end-point values `y0 = f(x0)`, `y1 = f(x1)` -/
+def rrSignExit (y0 y1 : Rat) : Option Rat :=
+  if y0 > y1 ∧ y1 > 0 then some 1
+  else if y1 > y0 ∧ y0 > 0 then some 0
+  else if y0 < y1 ∧ y1 < 0 then some 1
+  else if y1 < y0 ∧ y0 < 0 then some 0
+  else none
+
+/-- value returned by `solve_phase_fraction_Rashford_Rice`: the single-phase early exits, the end-point sign tests
+(`x0 = 1e-16 if za else 0`, `x1 = 1 − 1e-16 if zb else 1` are passed in), and otherwise `iter`, what the
+bracketing / interpolation of flexsolve returns (parameter) -/
+def rrSolve (zs ks : List Rat) (za zb x0 x1 iter : Rat) : Rat :=
+  match rrShortcut ks za zb with
+  | some v => v
+  | none =>
+    match rrSignExit (rrObjective zs ks za zb x0) (rrObjective zs ks za zb x1) with
+    | some v => v
+    | none => iter
+
+/-- monitored hypothesis on the parameter `iter`: the objective changes sign within `delta` of it (inside `[x0, x1]`) -/
+def rrRootOK (zs ks : List Rat) (za zb x0 x1 iter delta : Rat) : Bool :=
+  let lo := if iter - delta < x0 then x0 else iter - delta
+  let hi := if iter + delta > x1 then x1 else iter + delta
+  decide (rrObjective zs ks za zb lo * rrObjective zs ks za zb hi ≤ 0)
+
+/-- did the solver reach the iterative part? -/
+def rrIterative (zs ks : List Rat) (za zb x0 x1 : Rat) : Bool :=
+  (rrShortcut ks za zb).isNone && (rrSignExit (rrObjective zs ks za zb x0) (rrObjective zs ks za zb x1)).isNone
+
 /-! ### `lle` and `vle` wrappers -/
 
 /-- which liquid row becomes the top outlet: `ms.phases = ('L','l')`, so `L` unless no
